@@ -129,6 +129,21 @@ CHECKS = {
             {"name": "c07-contract", "bin": "cmdglyph", "build": "inpkg:cmd/glyph", "run": "^TestC07Contract$", "quick": 20000, "thorough": 800000},
         ],
     },
+    "C11": {
+        "level": "exploration",
+        "manifest": {
+            "technique": "model-based property-based testing (rapid) of timed request histories on a virtual clock against the bucket bounds of the property, plus complete enumeration of a small sub-space; CLI stack in both modes and the library middleware under every trust-proxy setting",
+            "level_text": "Histories of up to 40 steps (gaps of 0, a sliver, ceil(window/N), window/2, a window, ten windows; 1-3 clients with varying ports; forged X-Forwarded-For / X-Real-IP; concurrent bursts at one virtual instant) are sent to a route declaring + ratelimit(N/unit). Upper bound: for every client and every pair of admitted requests, count <= N*(1 + T/window). Lower bound and isolation: replaying only that client's requests on a pessimistic integer bucket (fractions discarded at every gap), whatever it admits must have been admitted, whatever other clients or forged headers did. 429 never carries the body's marker; the unlimited sibling route is never affected. All histories of length <= 4 over N in {1,2,3}, two clients and four gaps are enumerated completely. Library level: the same bounds per client identity under TrustProxy on/off and three trusted-proxy lists.",
+            "level_note": "time.Now() in pkg/server/middleware.go is redirected by a generated overlay. Window units other than min are a recorded finding (the CLI rounds every unit to a per-minute budget and the repository's own test pins that), so generation uses min only while it is listed; the finding's witnesses are replayed on every run. The cleanup ticker and the 10k-entry eviction branch are not exercised.",
+        },
+        "rule": ("rapid-generated (N in 1..12, unit, mode, history of 1-40 steps) and the exhaustive small set; non-trivial = some client has both admitted and rejected requests, or at least two clients are interleaved; distinct = hash of the whole case"),
+        "assumptions": ["client identity = RemoteAddr host for the CLI (TrustProxy is off there)", "requests of one concurrent burst are unordered: admissions are listed before rejections when judging"],
+        "units": [
+            {"name": "c11-rate", "bin": "cmdglyph", "build": "inpkg:cmd/glyph", "run": "^TestC11Rate$", "quick": 8000, "thorough": 500000, "gomaxprocs": 4},
+            {"name": "c11-small", "bin": "cmdglyph", "build": "inpkg:cmd/glyph", "run": "^TestC11Small$", "enumerate": True, "shards": 14},
+            {"name": "c11-lib", "bin": "server", "build": "inpkg:pkg/server", "run": "^TestC11Lib$", "quick": 20000, "thorough": 1000000},
+        ],
+    },
     "C20": {
         "level": "exploration",
         "manifest": {
